@@ -135,6 +135,10 @@ pub trait TypedProp: Sync + Send {
     fn max_shrink_steps(&self) -> usize {
         600
     }
+    /// the same, for the case that failed (e.g. fewer steps for cases that run in real time)
+    fn max_shrink_steps_for(&self, _case: &Self::C) -> usize {
+        self.max_shrink_steps()
+    }
     fn shrink_more(&self, case: &Self::C, _fails: &mut dyn FnMut(&Self::C) -> bool) -> Self::C {
         case.clone()
     }
@@ -416,7 +420,7 @@ impl<P: TypedProp + 'static> DynProp for Wrap<P> {
                         if tree.simplify() {
                             loop {
                                 steps += 1;
-                                if steps > self.0.max_shrink_steps() {
+                                if steps > self.0.max_shrink_steps_for(&c) {
                                     break;
                                 }
                                 let cand = tree.current();
